@@ -117,6 +117,19 @@ class GotranPythonCodePrinter(PythonCodePrinter):
     def _print_Or(self, expr):
         return self._print_logical("logical_or", expr.args)
 
+    def _print_Min(self, expr):
+        # numpy.min(a, b) would take b as the axis. Use the element-wise function
+        value = self._print(expr.args[-1])
+        for arg in reversed(expr.args[:-1]):
+            value = f"numpy.minimum({self._print(arg)}, {value})"
+        return value
+
+    def _print_Max(self, expr):
+        value = self._print(expr.args[-1])
+        for arg in reversed(expr.args[:-1]):
+            value = f"numpy.maximum({self._print(arg)}, {value})"
+        return value
+
     def _print_Mod(self, expr):
         # Always use parentheses: '%' has the same precedence as '*' in python,
         # so 'a*Mod(b, c)' must not be printed as 'a*b % c'
